@@ -206,14 +206,29 @@ def monitor_tail(case, ev):
 def monitor_drain_tail(case, ev):
     """Fair drain tail of a protocol-respecting history (harness generate): no new requests,
     every round = one tick, all four data out-buffers emptied, every forwarded request
-    answered, the control port looked at.  Each round completes at least one pending
-    transaction per path (rdma_response_progress) and, once both lists are empty, the next
-    tick pushes the DrainRsp (rdma_drain_progress; the control out-buffer is empty because
-    it is looked at every round).  So: a DrainReq accepted, then 2*(unanswered)+6 complete
-    rounds, nothing in flight at the end, and still no DrainRsp = the drain is never
-    acknowledged although no remote transaction is in flight."""
+    answered (oldest first, refused responses retried in the next round), the control port
+    looked at.  The number of rounds is judged against the PROVED bound of rdma_liveness
+    (coq/mem/RdmaLive.v, props/C18.v):
+
+      * the first tick after the accepted DrainReq takes it out of the control in-buffer
+        (protocol-respecting histories hold at most one control request), so from then on
+        the hypothesis ct_in = [] holds; widths and buffer size are >= 1;
+      * every later complete round is a fair round of the theorem: retrieving until the
+        buffer is empty is a quota >= 1, answering every pending request in order is
+        max(1, pending) attempts on the oldest unanswered one (the in-buffer does not shrink
+        between ticks, so once one is refused the rest is refused too), and looking at the
+        control port changes nothing while the drain is unacknowledged (its out-buffer is
+        empty then: invariant ctl_ok);
+      * the rank of any such state is at most 5 per request accepted and not yet answered
+        to its requester, plus 1 for the pending drain (each such request is in exactly one
+        of: request queue 5, forwarded 4, retrieved 3, response queued 2, answer queued 1).
+
+    So after 1 + 5*(accepted - answered) + 1 consecutive complete rounds the DrainRsp must
+    have been pushed - and the same round's look at the control port retrieves it."""
     t0 = case.get('drain_tail')
     if case.get('hostile') or not t0 or any(e.get('crash') for e in ev):
+        return None
+    if case.get('buf', 0) < 1 or any(w < 1 for w in case.get('w', [0])):
         return None
     dreqs = [i for i in range(len(ev)) if ev[i]['e'] == 'd' and ev[i]['port'] == 'CT' and ev[i].get('acc')]
     if not dreqs or ev[dreqs[-1]]['msg']['flags'] != FL_DRAIN_REQ:
@@ -226,9 +241,9 @@ def monitor_drain_tail(case, ev):
     start = max(d, t0)
     acc = sum(1 for e in ev[:start] if e['e'] == 'd' and e['port'] in ('RI', 'DO') and e.get('acc'))
     ans = sum(1 for e in ev[:start] if e['e'] == 'r' and e['port'] in ('RI', 'DO') and e.get('got'))
-    need = 2 * (acc - ans) + 6
+    need = drain_tail_bound(acc - ans)
     ticks = [i for i in range(start, len(ev)) if ev[i]['e'] == 'tick'] + [len(ev)]
-    rounds = 0
+    flags = []
     for a, b in zip(ticks, ticks[1:]):
         seg = ev[a + 1:b]
         emptied = all(any(e['e'] == 'r' and e['port'] == p and e.get('none') for e in seg) for p in ('RO', 'DI', 'RI', 'DO'))
@@ -236,16 +251,29 @@ def monitor_drain_tail(case, ev):
         served = True
         for fport in ('RO', 'DI'):
             got = [e['got']['id'] for e in ev[:b] if e['e'] == 'r' and e['port'] == fport and e.get('got')]
-            tried = {e['msg']['rspto'] for e in ev[:b] if e['e'] == 'd' and e['port'] == fport}
-            served = served and all(g in tried for g in got)
-        if emptied and looked and served:
-            rounds += 1
-    if rounds < need or in_flight(ev, len(ev)):
+            done = {e['msg']['rspto'] for e in ev[:b] if e['e'] == 'd' and e['port'] == fport and e.get('acc')}
+            tried = {e['msg']['rspto'] for e in seg if e['e'] == 'd' and e['port'] == fport}
+            served = served and all(g in done or g in tried for g in got)
+        quiet = not any(e['e'] == 'd' and e['port'] in ('RI', 'DO', 'CT') for e in seg)
+        flags.append(emptied and looked and served and quiet)
+    # the first tick consumes the DrainReq; after it: the longest run of consecutive complete rounds
+    rounds = best = 0
+    for f in flags[1:]:
+        rounds = rounds + 1 if f else 0
+        best = max(best, rounds)
+    if best + 1 < need or in_flight(ev, len(ev)):
         return None
     return ('the drain requested at event %d is never acknowledged although no remote transaction is in flight: every forwarded request '
-            '(%d + %d) was answered, all out-buffers were emptied in each of %d fair rounds (%d needed), the control port stayed silent'
+            '(%d + %d) was answered, all out-buffers were emptied in each of %d consecutive fair rounds (%d needed by the proved bound '
+            'of rdma_liveness: 5 x %d unanswered + 2), the control port stayed silent'
             % (d, sum(1 for e in ev if e['e'] == 'r' and e['port'] == 'RO' and e.get('got')),
-               sum(1 for e in ev if e['e'] == 'r' and e['port'] == 'DI' and e.get('got')), rounds, need))
+               sum(1 for e in ev if e['e'] == 'r' and e['port'] == 'DI' and e.get('got')), best + 1, need, acc - ans))
+
+
+def drain_tail_bound(unanswered):
+    """rounds after which rdma_liveness guarantees the DrainRsp: the tick that takes the DrainReq,
+    then bound(s) <= 5*unanswered + 1 fair rounds"""
+    return 5 * unanswered + 2
 
 
 def l2_data(addr, n):
@@ -674,6 +702,10 @@ def main(argv):
                    'whole-system runs are validation only: caches, switches, MMU, CP are not modelled']
     rep.assumptions = ['RDMA theorems hold for every finite sequence of deliveries, ticks and retrievals; rdma_no_crash only for '
                        'protocol-respecting environments (predicate respects)',
+                       'rdma_liveness / rdma_liveness_all_answered / rdma_rank_decreases: buffer size and the four widths >= 1, start state '
+                       'reachable by protocol-respecting events with no control request left in the control in-buffer (a pending drain is '
+                       'covered), fair environment rounds (tick, every port served at least once, oldest unanswered request answered when '
+                       'the port has room), no new requests and no control messages during the rounds; bound = rank of the start state',
                        'distribute_covers_once: 1 <= byteSize < 2^64, aligned address, at least one GPU; '
                        'gpu_split_partition: grid and work-group dimensions >= 1, work-group count < 2^32, at least one CU in total',
                        'GPU-count independence of whole workloads is sampled (fir, matrixtranspose, atax with -verify), not proved']
